@@ -10,6 +10,11 @@ THOROUGH_SEEDS = 5
 
 
 def cases(tier, seed):
+    from .C03 import add_via
+    return add_via(_cases(tier, seed), 6 if tier == 'quick' else 4, ('tt_bilinear',))
+
+
+def _cases(tier, seed):
     rng = random.Random(seed + 7)
     th = tier == 'thorough'
     cs = []
